@@ -156,7 +156,7 @@ REGISTRY = {
         undecided_clauses=[],
     ),
     "C20": dict(
-        packs=["c20", "c20b"],
+        packs=["c20", "c20b", "c19"],
         level="proof",
         replay=dict(script="replay/c20.py", args=["{seed}", "25"], timeout=900),
         bounded=[dict(name="audit-scenarios", script="replay/found.py", args=["C20", "{tier}"], timeout=1500, bound="scenarios contributed by audit sub-agents (replay/found/MANIFEST.json): repaired defects must stay repaired, recorded findings are probed"), dict(name="tracker-process-histories", script="replay/c20.py", args=["{seed}", "25"],
